@@ -279,7 +279,7 @@ def partA(unit):
         # deeper levels: resume, crash in the first / second save after the resume
         for d in range(1, depth if mode != 'l1' else 1):
             new = []
-            for h in frontier:
+            for fi, h in enumerate(frontier):
                 # op logs of the saves of the resumed process: record once per abstract state
                 snap = snaps.get(json.dumps(h))
                 if snap is not None:
@@ -288,7 +288,7 @@ def partA(unit):
                     hist.clean()
                     _replay(hist, h)
                     snap = snaps[json.dumps(h)] = hist.snapshot('%d' % len(snaps))
-                rec2 = os.path.join(wd, 'oplog_r%d_%d' % (d, len(new)))
+                rec2 = os.path.join(wd, 'oplog_r%d_%d' % (d, fi))
                 r = hist.run(('resume', None), record=rec2)
                 if r['exit'] == 'nothing-to-resume':
                     continue
@@ -408,6 +408,8 @@ def partB_configs(tier):
     gs('dmrg2-mixer', 'TwoSiteDMRGEngine', dict(dm, mixer=True, mixer_params=dict(amplitude=1e-3, decay=2.0, disable_after=3)))
     gs('dmrg1-mixer', 'SingleSiteDMRGEngine', dict(dm, mixer=True, mixer_params=dict(amplitude=1e-3, decay=2.0, disable_after=3)))
     gs('dmrg2-chi_list', 'TwoSiteDMRGEngine', dict(dm, mixer=False, chi_list={0: 2, 2: 8}))
+    gs('dmrg2-chi_list-unordered', 'TwoSiteDMRGEngine', dict(dm, mixer=False, chi_list={2: 8, 0: 2}))
+    gs('dmrg2-measure-at-checkpoints', 'TwoSiteDMRGEngine', dict(dm, mixer=False), measure_at_algorithm_checkpoints=True)
     te('tebd-trunc', 'TEBDEngine', dict(dt=0.05, N_steps=2, order=2, trunc_params=dict(chi_max=2, svd_min=1e-12)))
     te('tebd4', 'TEBDEngine', dict(dt=0.05, N_steps=2, order=4, trunc_params=dict(chi_max=8, svd_min=1e-12)))
     te('tdvp2', 'TwoSiteTDVPEngine', dict(dt=0.05, N_steps=2, trunc_params=dict(chi_max=8, svd_min=1e-12)))
